@@ -215,7 +215,14 @@ func (ctx *cmdContext) infoUnlocked(cs *clientState) string {
 	if cs.client.IsCloseRequested() {
 		flags.WriteRune('c')
 	}
-	if isAbortedExecUnlocked(cs) {
+	// the listed connection's own fields, read under its lock (its commands
+	// change them while this runs)
+	cs.mu.Lock()
+	name, selectedDb, user, respVersion := cs.name, cs.selectedDb, cs.user, cs.respVersion
+	aborted := isAbortedExecUnlocked(cs)
+	cs.mu.Unlock()
+
+	if aborted {
 		flags.WriteRune('d')
 	}
 	if cs.isMultiInProgress() {
@@ -228,13 +235,13 @@ func (ctx *cmdContext) infoUnlocked(cs *clientState) string {
 
 	info = append(info,
 		fmt.Sprintf("id=%d", cs.id),
-		"name="+cs.name,
-		fmt.Sprintf("db=%d", cs.selectedDb),
+		"name="+name,
+		fmt.Sprintf("db=%d", selectedDb),
 		fmt.Sprintf("multi=%d", multi),
 		fmt.Sprintf("flags=%s", flags.String()),
 		"cmd="+ctx.cmdToken,
-		"user="+cs.user,
-		fmt.Sprintf("resp=%d", cs.respVersion),
+		"user="+user,
+		fmt.Sprintf("resp=%d", respVersion),
 	)
 
 	var sb strings.Builder
